@@ -773,14 +773,28 @@ func (s *Sess) checkAssertsAtReturn(ret *ssa.Return, st *State) {
 		if a.Callee != "return" || a.Ord != ord || a.C.E == nil {
 			continue
 		}
-		c := s.funcEnv(st, s.entry, nil)
+		// the values being returned are result0, result1, ...
+		var rvals []Val
+		for _, rv := range ret.Results {
+			v := s.val(rv)
+			if v.place != nil || v.t == "" {
+				rvals = nil
+				break
+			}
+			rvals = append(rvals, v)
+		}
+		c := s.funcEnv(st, s.entry, rvals)
 		c.lookup = func(n string) (Val, bool) { return s.resolveLocalAt(ret, n, st) }
 		f, err := c.evalBool(a.C.E)
 		if err != nil {
 			s.detached("assert at return#%d %q: %v", a.Ord, a.C.Src, err)
 			continue
 		}
-		s.oblige(st, "assert", "assert."+labelOr(a.C.Label, a.Ord), f, ret.Pos(), a.C.Src)
+		if ob := s.oblige(st, "assert", "assert."+labelOr(a.C.Label, a.Ord), f, ret.Pos(), a.C.Src); ob != nil {
+			// an assertion at a return is not assumed by the postconditions checked after it: if it is a
+			// listed known finding, the rest of that return is still checked for real
+			ob.NoAssume = true
+		}
 		a.seen = true
 	}
 }
